@@ -197,10 +197,47 @@ def fresh(ctx, model, engine):
                       site=f"{cname}.execute: {norm(ev.node)[:60]} is a new container")
         if k == 0 and cname not in ("FuncSorted",):
             ctx.ob("C16.fresh", f"{cname}.execute: no container-typed return recognised", True)
+    shared_values(ctx, model, "C16.fresh")
     fs = model.method(P, "FuncSorted", "execute")
     ok = "return ValueList().addItems(result)" in norm(fs.node) and "result = lst.value[:]" in norm(fs.node)
     ctx.check("C16.fresh", fs, None, ok, "sorted does not return a new list built from a copy", expr="sorted result",
               site="FuncSorted.execute: new list from a copy")
+
+
+def shared_values(ctx, model, rule):
+    """A memoised function (functools.lru_cache / cache) that builds a language value hands the SAME object to every
+    caller; strings, lists, sets, maps and objects can be changed in place (element assignment), so one caller's
+    change shows up in values other code - even another interpreter - got from the cache."""
+    n = 0
+    for f in model.all_funcs(True):
+        for d in ast.walk(f.node):
+            if not isinstance(d, ast.FunctionDef):
+                continue
+            decos = [norm(x.func if isinstance(x, ast.Call) else x) for x in d.decorator_list]
+            if not any(t.split(".")[-1] in ("lru_cache", "cache", "cached_property") for t in decos):
+                continue
+            builds = [c for c in ast.walk(d) if isinstance(c, ast.Call) and isinstance(c.func, ast.Name)
+                      and c.func.id in ("ValueString", "ValueList", "ValueSet", "ValueMap", "ValueObject")]
+            n += 1
+            ctx.check(rule, f, d, not builds,
+                      f"{d.name} is memoised and returns a mutable language value ({norm(builds[0])[:40] if builds else ''}): "
+                      f"every caller shares one object, and an in-place change (e.g. s[i] = c on a string) alters what "
+                      f"all of them see", expr=f"memoised value builder {d.name}",
+                      site=f"{f.file}: memoised function {d.name} builds no mutable language value")
+    for m in model.modules.values():
+        for d in m.tree.body:
+            if isinstance(d, ast.FunctionDef):
+                decos = [norm(x.func if isinstance(x, ast.Call) else x) for x in d.decorator_list]
+                if any(t.split(".")[-1] in ("lru_cache", "cache") for t in decos):
+                    builds = [c for c in ast.walk(d) if isinstance(c, ast.Call) and isinstance(c.func, ast.Name)
+                              and c.func.id in ("ValueString", "ValueList", "ValueSet", "ValueMap", "ValueObject")]
+                    n += 1
+                    ctx.check(rule, m.rel, d, not builds,
+                              f"{d.name} is memoised and returns a mutable language value: every caller shares one "
+                              f"object, and an in-place change (e.g. s[i] = c on a string) alters what all of them see",
+                              expr=f"memoised value builder {d.name}",
+                              site=f"{m.rel}: memoised function {d.name} builds no mutable language value")
+    ctx.ob(rule, f"{n} memoised function(s) in the package examined for shared mutable values", True)
 
 
 # --------------------------------------------------------------------------------------------------
